@@ -172,6 +172,9 @@ pub struct MacroDefinition {
     block: Vec<Token>,
 }
 
+/// The number of '.loop' iterations (of all loops together, nested ones included) a single pass may run
+const MAX_LOOP_ITERATIONS: i64 = 0x10000;
+
 pub struct CodegenContext {
     tree: Arc<ParseTree>,
     options: CodegenOptions,
@@ -194,6 +197,9 @@ pub struct CodegenContext {
     current_scope_nx: SymbolIndex,
 
     next_macro_scope_id: usize,
+
+    /// The number of '.loop' iterations that were started during the current pass
+    loop_iterations: i64,
 
     /// The files whose tokens are being emitted right now because of an import (innermost last)
     import_stack: Vec<String>,
@@ -246,6 +252,7 @@ impl CodegenContext {
             current_scope: IdentifierPath::empty(),
             current_scope_nx: SymbolIndex::new(0),
             next_macro_scope_id: 0,
+            loop_iterations: 0,
             import_stack: vec![],
             test_elements: vec![],
             source_map: SourceMap::default(),
@@ -333,6 +340,7 @@ impl CodegenContext {
     fn next_pass(&mut self) {
         self.pass_idx += 1;
         self.next_macro_scope_id = 0;
+        self.loop_iterations = 0;
         self.changed.clear();
 
         log::trace!("\n* NEXT PASS ({}) *", self.pass_idx);
@@ -1009,6 +1017,17 @@ impl CodegenContext {
                 ..
             } => {
                 if let Some(loop_count) = self.evaluate_expression_as_i64(expr, true)? {
+                    // All loops of a pass together may not run more iterations than the address space has bytes
+                    if loop_count > MAX_LOOP_ITERATIONS - self.loop_iterations {
+                        return Err(Diagnostic::error()
+                            .with_message(format!(
+                                "cannot loop {} times: a program may run at most {} loop iterations",
+                                loop_count, MAX_LOOP_ITERATIONS
+                            ))
+                            .with_labels(vec![expr.span.to_label()])
+                            .into());
+                    }
+                    self.loop_iterations += loop_count.max(0);
                     for index in 0..loop_count {
                         // Every iteration lives in a scope of its own, just like the same block written out by hand
                         // would. Its '-' and '+' symbols, its labels and its 'index' constant belong to that iteration only.
